@@ -280,7 +280,7 @@ func realMain() int {
 		defer cleanup()
 	}
 	seed := vh.SeedFromEnv()
-	rep := vh.NewReport("C16", *tier, seed, "Documents for Turtle, TriG, RDF/JSON, RDF/XML, JSON-LD, RDFa, Microdata, HTML-embedded JSON-LD and the combined HTML decoder: every document of the W3C suites shipped in the repository; grammar-directed documents (multi-line, CRLF, lone CR, multi-byte and astral characters, comments, several statements per line, prefixed names, relative references, blank node labels, long strings, numeric/boolean shorthand, `a`, `[ ]`, `( )`, graph names); byte-level mutations and truncations of both (no ill-formed UTF-8 for RDF/XML and the HTML family: cursorio.TextWriter panics there, C05 finding D28). Each document is decoded with capture off, capture on (initial offset unset / explicit zero) and capture on with a random non-zero initial offset (byte<2000, line<60, column<90); streaming decoders additionally with a reader ending in an injected error. Non-trivial = at least one statement with a range, or an error carrying an offset. Token layer (T3): single tokens and token prefixes/mutations for the seven producers of both packages against the Lean model.")
+	rep := vh.NewReport("C16", *tier, seed, "Documents for Turtle, TriG, RDF/JSON, RDF/XML, JSON-LD, RDFa, Microdata, HTML-embedded JSON-LD and the combined HTML decoder: every document of the W3C suites shipped in the repository (thorough tier; a seeded sample of 400 per format in the quick tier); hand-written corner documents; grammar-directed documents (multi-line, CRLF, lone CR, multi-byte and astral characters, comments, several statements per line, prefixed names, relative references, blank node labels, long strings, numeric/boolean shorthand, `a`, `[ ]`, `( )`, graph names; XML/HTML character references, CDATA, nested elements, property attributes, reification, collections; JSON-LD contexts, lists, @reverse, @graph, native numbers); byte-level mutations and truncations of generated and corpus documents for Turtle, TriG, RDF/JSON, JSON-LD and RDF/XML (RDF/XML repaired to valid UTF-8: cursorio.TextWriter panics on ill-formed UTF-8, C05 finding D28). HTML family (RDFa, Microdata, HTML-embedded JSON-LD, combined decoder): corpus, corner and generated documents only, NO byte-level mutation (the third-party position bookkeeping keeps producing new failure shapes on tag soup; C16X_SOUP=1 turns it on as a development aid), so the search over malformed markup is incomplete by construction. Each document is decoded with capture off, capture on (initial offset unset / explicit zero) and capture on with a random non-zero initial offset (byte<2000, line<60, column<90); streaming decoders additionally with a reader ending in an injected error. Non-trivial = at least one statement with a range, or an error carrying an offset. Token layer (T3): single tokens with varied continuations, mutations and every-prefix truncations for the seven producers of both packages against the Lean model.")
 	fs, err := vh.LoadFindings(*findings)
 	if err != nil {
 		fmt.Fprintln(os.Stderr, "findings:", err)
